@@ -2,10 +2,10 @@
 """Write seeded/MATRIX.md and refresh seeded/*/meta.json from a matrix run (tools/seed_matrix.sh output)."""
 import json, os, re, sys
 ROOT = os.path.dirname(os.path.dirname(os.path.abspath(__file__)))
-lines = [l for l in open(sys.argv[1]) if re.match(r"C\d\d[a-f] C\d\d rc=", l)]
+lines = [l for l in open(sys.argv[1]) if re.match(r"C\d\d[a-h] C\d\d rc=", l)]
 rows = []
 for l in lines:
-    m = re.match(r"(C\d\d[a-f]) (C\d\d) rc=(\d+)(.*)", l)
+    m = re.match(r"(C\d\d[a-h]) (C\d\d) rc=(\d+)(.*)", l)
     seed, prop, rc, rest = m.group(1), m.group(2), int(m.group(3)), m.group(4)
     sigs = sorted(set(re.findall(r"signature=(C\d\d/\S+)", rest)))
     rows.append((seed, prop, rc, sigs))
@@ -13,7 +13,7 @@ for l in lines:
 CONF = {}
 if len(sys.argv) > 2:
     for l in open(sys.argv[2]):
-        m = re.match(r"seeded/(C\d\d[a-f])/? apply=(\S+) tests=\[(.*?)\] demo_patched=(\d+) demo_clean=(\d+)", l)
+        m = re.match(r"seeded/(C\d\d[a-h])/? apply=(\S+) tests=\[(.*?)\] demo_patched=(\d+) demo_clean=(\d+)", l)
         if m:
             CONF[m.group(1)] = {"apply": m.group(2), "tests": m.group(3), "demo_patched": int(m.group(4)), "demo_clean": int(m.group(5))}
 
@@ -23,7 +23,8 @@ def confirmed(c):
 
 
 extra = {"C01b": ("C01", 0, [])}
-OBSOLETE = {"C18b": "made harmless by fix 4e889ba (chain now closes its owned iterators itself): the demo passes with the patch, so it is no longer a property-breaking change"}
+OBSOLETE = {"C03e": "made harmless by fix b4c4a7a (the shared close_all helper skips objects without aclose, which is all the over-wide ownership filter of this change let through): the demo passes with the patch",
+            "C18b": "made harmless by fix 4e889ba (chain now closes its owned iterators itself): the demo passes with the patch, so it is no longer a property-breaking change"}
 out = ["# Seeded changes x checks", "",
        "Each change was written by an independent sub-agent from the text of one property only, confirmed here",
        "(`tools/seed_confirm.sh`: applies to /repo HEAD, 388 tests pass, demo fails with / passes without the patch) and run",
@@ -51,7 +52,7 @@ for seed, prop, rc, sigs in rows:
     if c and not confirmed(c) and seed not in OBSOLETE:
         verdict = f"stale on HEAD (apply={c['apply']}, demo with patch exits {c['demo_patched']}, without {c['demo_clean']}); check said: " + verdict
     if seed in OBSOLETE:
-        verdict = 'obsolete (was caught: C18/chain/unreleased-unstarted-source-after-cancel)'
+        verdict = 'obsolete (' + {"C18b": "was caught: C18/chain/unreleased-unstarted-source-after-cancel", "C03e": "was caught: C03/chain/result-differs-with-iterable-flavour"}[seed] + ")'
     out.append(f"| {seed} | {prop} | {summ} | {need} | {verdict} | {'<br>'.join(sigs[:3])} |")
 out += ["", "Not caught: C01b (a tee child yields a fetched item directly instead of through its buffer) only manifests with concurrent",
         "consumers, no lock and a suspending source - outside the premise of C09 ('a lock is supplied, or the source never suspends'), and",
